@@ -110,12 +110,12 @@ PROPS["C03"] = {
     "verus": ["c03_compaction.rs.in", "c03_compactor.rs.in"],
     "explanation": "Deductive obligations on the catalog transformers and the publish order of one compaction; row conservation of the merge itself rests on assumed arrow/parquet kernel contracts (concat_batches, sort_to_indices + take, Parquet encode/decode are value preserving). Crashes, two compactors and lease expiry are covered only through the atomic-swap contract (sources leave the catalog only inside one conditional PUT that requires the registered target) and the lease invariant of C08; interleavings are not explored.",
     "assumptions": [
-        "compactor units: acquire_lease success = an exclusive live lease on exactly these chunks (C08); complete_compaction success = exactly the sources left the catalog (catalog units); a failed request leaves the ghost state unchanged (a failed-but-applied swap only leaves garbage, never loses rows); ChunkMerger::merge returns exactly the rows of the given paths, sort_batch and the Parquet writer keep them; generate_compacted_path is fresh (uuid)",
+        "compactor units: acquire_lease success = an exclusive live lease on exactly these chunks (C08); complete_compaction success = exactly the sources left the catalog (catalog units); a failed request leaves the ghost state unchanged (a failed-but-applied swap only leaves garbage, never loses rows); sort_batch and the Parquet writer keep the rows; generate_compacted_path is fresh (uuid)",
+        "ChunkMerger::merge (unit chunk_merger_merge): read_chunk decodes what was encoded; concat_batches pairs columns BY POSITION, so it is only applied to batches that all carry the schema given to it (precondition -- the pre-fix call under the first chunk's schema fails it: F31); align_by_column_name's own contract (one schema for all, each batch's rows unchanged as name -> cell maps, NULL for a column a batch lacks) is ASSUMED -- its text (closures over arrow schemas) is not under contract",
         "known findings F19 (probe finding_F19_compact_l0) and F20 (probe finding_F20_stale_sources), demonstrated under /verif/findings",
         "arrow concat_batches / sort_to_indices / take and the Parquet writer/reader preserve the multiset of rows",
         "conditional PUT of the catalog object is atomic (ghost store contract of prelude_s3.inc)",
         "chunk levels stay below u32::MAX",
-        "in-memory backend: complete_compaction does not check that the target is registered — caller obligation, discharged at the compactor call site (merge_chunks registers the target before the swap)",
     ],
 }
 
@@ -135,12 +135,12 @@ PROPS["C02"] = {
     "technique": "Verus contracts on the five atomic_save_* wrappers (each serialises exactly the value it is given and reaches put_with_cas once, for that object's own path, conditional on the ETag the caller passed) and the five load_*_with_etag functions (value and ETag come from one GET of that object; \"none\" and the empty value iff the object is absent; the catalog's empty-file and legacy cases); Verus contracts on the extracted CAS machinery: the cas_retry! macro body (at most 5 attempts, Ok only from a successful attempt, conflict => retry, other errors returned at once), put_with_cas (create-if-absent / update-if-ETag, conflicts mapped to Error::Conflict, overwrite only behind the opt-in) and the one-attempt bodies of register / delete / complete_compaction as pure transformers of the catalog loaded in the same attempt that keep chunk map and time index consistent",
     "frame_scans": [{"file": "src/metadata/s3.rs", "patterns": [".put(", ".put_opts(", ".put_multipart("],
                      "allowed_units": ["put_with_cas"],
-                     "allowed_functions": ["save_chunk_metadata_internal", "save_time_index", "save_chunk_metadata", "rebuild_time_index"],
-                     "message": "every write of a catalog object goes through put_with_cas (conditional PUT); the four legacy / maintenance functions exempted by name are an assumption of C02"}],
+                     "allowed_functions": ["save_chunk_metadata_internal", "save_time_index", "save_chunk_metadata"],
+                     "message": "every write of a catalog object goes through put_with_cas (conditional PUT); the three legacy functions exempted by name (they write the pre-catalog.json files) are an assumption of C02"}],
     "verus": ["c02_cas.rs.in", "c07_s3.rs.in", "c03_compaction.rs.in", "c02_wrappers.rs.in", "c02_save.rs.in"],
     "explanation": "All interleavings are covered through the assumed conditional-PUT contract of the object store, not explored: each attempt is load -> pure transform -> put-with-the-ETag-just-loaded and reports success only after the put succeeded (per-function obligations, discharged); with atomic conditional PUT every successful mutation is f_op(previous version) and every failed one leaves the object unchanged, so the version history is a one-at-a-time history and every version satisfies the chunk-map/time-index invariant. The serialisation argument itself is not mechanised.",
     "assumptions": [
-        "frame scan exemptions: save_chunk_metadata (pub test helper), save_chunk_metadata_internal, save_time_index and rebuild_time_index (used by the offline bins backfill_levels / rebuild_metadata) overwrite catalog objects unconditionally; they are assumed not to run concurrently with live writers -- run against a live cluster they would lose concurrent catalog updates",
+        "frame scan exemptions: save_chunk_metadata (pub test helper), save_chunk_metadata_internal and save_time_index write the legacy (pre-catalog.json) objects unconditionally; they are read only when catalog.json does not exist. rebuild_time_index used to overwrite catalog.json unconditionally as well (defect F33, repaired: it now runs inside the CAS loop and is under contract like every other mutation)",
         "object_store conditional PUT: Create succeeds only if absent, Update(etag) only if the stored ETag matches, both atomic; a failed put has no effect (ghost ObjStore / catalog store shims)",
         "u64::pow(2, e) <= 65536 for e <= 16 (assume_specification)",
         "serde_json round-trips the catalog",
@@ -186,7 +186,7 @@ PROPS["C09"] = {
     "assumptions": [
         "compactor units shared with C03: a path is handed to the deletion queue only after the swap that removed it from the catalog reported success (typestate preconditions on schedule_deletion / complete_compaction shims)",
         "iter().filter().filter().map().collect(), Vec::retain and into_iter().filter().collect() have their std meaning over the lifted closure predicates",
-        "chrono instants are a totally ordered integer; clock readings lie in [0, 2^62); retention_days <= 36500 and max_skew < 2^60 ns (no overflow in the cut-off arithmetic)",
+        "chrono instants are a totally ordered integer; clock readings lie in [0, 2^62); the retention arithmetic saturates (i64::saturating_mul / saturating_sub shims with the exact clamped result), so the units hold for every u32 retention_days and every non-negative skew margin (F32); a retention beyond the representable span (about 292 years) is capped there",
         "get_chunks returns entries carrying the catalog's max_timestamp for their path (C07 lookup contract)",
         "RwLock guards are transparent under the sequential reading",
     ],
@@ -354,7 +354,7 @@ PROPS["C01"] = {
 PROPS["C05"]["verus"] = ["c05_wal_reader.rs.in", "c05_wal_lemmas.rs.in", "c05_wal_fs.rs.in"]
 PROPS["C05"]["technique"] = "Verus contracts on the extracted WAL code: the reader equals a recursive reference parser for all byte strings (with termination); torn-tail theorem over the reader / codec contracts (a cut at any byte yields exactly the complete entries); over a ghost file system, open / append_payload / rotate / truncate_before / read_entries_after / last_sequence_* keep the log invariant (clean active segment, every sequence number on disk and the flushed mark below next_seq, increasing numbers) and open restarts above both the disk and the mark; Kani complete harnesses for the header codec"
 PROPS["C05"]["assumptions"] += [
-    "file system shims: read_dir + sort gives the segments by id; append-mode write_all writes everything or a prefix; set_len keeps a prefix; remove_file removes one file; the flushed_seq mark file: persist_flushed_seq is std::fs::write (truncate, then write) -- a crash inside it leaves an empty or short file, which load_flushed_seq (unit) reads as 0, never as a value above the last completely persisted mark; the op-level units model a persist as atomic and a lower mark only causes re-delivery (that step is argued, not mechanised)",
+    "file system shims: read_dir + sort gives the segments by id; append-mode write_all writes everything or a prefix; set_len keeps a prefix; remove_file removes one file; tokio::fs::File is modelled synchronously (write_all = the bytes are in the file, all or a prefix); in reality write_all only queues them and the outcome arrives with the next operation -- the code now calls flush() after the payload for exactly that reason (F30) and the flush shim is where the outcome is reported; the flushed_seq mark file: persist_flushed_seq is std::fs::write (truncate, then write) -- a crash inside it leaves an empty or short file, which load_flushed_seq (unit) reads as 0, never as a value above the last completely persisted mark; the op-level units model a persist as atomic and a lower mark only causes re-delivery (that step is argued, not mechanised)",
     "facts imported into c05_wal_fs from the other two C05 groups: appending a complete frame to a clean segment keeps it clean and appends one entry (theorem_torn_tail, k = |frame|); the re-encoded length of what the reader returns is a clean prefix of the file (lemma_valid_prefix + codec contract)",
     "payloads are at most u32::MAX bytes; segment sizes, segment ids and sequence numbers stay far from overflow",
     "after a failed WAL write (I/O error) the log object must be reopened before further appends: the code does not enforce this (flagged; WAL disk faults are outside the crash model of C05)",
